@@ -45,7 +45,7 @@ pub fn check(tier: Tier) -> Check {
         also_rel: false,
         property: "C09",
         level: "model_checking",
-        rule: "all sequences over {PUBLISH(QoS 2, id in {1,2} / {1,257} / {255,65535}, DUP 0/1), PUBREL(id in {1,2}), an unrelated QoS 1 PUBLISH} against one subscribed stream, also interleaved with two QoS 2 publishes of the client's own that carry the same identifier values and their PUBREC / PUBCOMP; the model keeps the set of identifiers awaiting PUBREL; the same under a CONNACK with Receive Maximum 1 / 2 / 7 and a Maximum Packet Size (limits on what the client sends, not on inbound exchanges); plus two subscribed streams (a message for both, either stream dropped, re-deliveries naming both / one / an unknown / no subscription identifier); plus the bookkeeping across a reconnect (an unreleased identifier is still a re-delivery after a resume of the live session, and a new message after an expired one); plus deterministic runs over every identifier 1..=n at once (deliver all, re-deliver all, release all, twice, three orders); non-trivial = a re-delivery had to be suppressed".into(),
+        rule: "all sequences over {PUBLISH(QoS 2, id in {1,2} / {1,257} / {255,65535}, DUP 0/1), PUBREL(id in {1,2}), an unrelated QoS 1 PUBLISH} against one subscribed stream, also interleaved with two QoS 2 publishes of the client's own that carry the same identifier values and their PUBREC / PUBCOMP; the model keeps the set of identifiers awaiting PUBREL; the same under a CONNACK with Receive Maximum 1 / 2 / 7 and a Maximum Packet Size (limits on what the client sends, not on inbound exchanges); plus two subscribed streams (a message for both, either stream dropped, re-deliveries naming both / one / an unknown / no subscription identifier); plus the bookkeeping across a reconnect (an unreleased identifier is still a re-delivery after a resume of the live session, and a new message after an expired one); plus deterministic runs over every identifier 1..=n at once (deliver all, re-deliver all, release all, twice, three orders); re-deliveries 2.2 s of real time after the delivery of messages carrying a Message Expiry Interval of 0 / 1 s (C09/aging); value flavour; non-trivial = a re-delivery had to be suppressed".into(),
         assumptions: vec![],
         parts,
     }
